@@ -1,8 +1,10 @@
 (* C12 — the scanner reports exactly the lexemes that are in the text.
    Statements only; proofs in Proofs/C12Proofs.v.  PARTIAL: the unbounded well-formedness
-   statement about lexeme EXTENTS (begin <= end, inside the file) is not proved; what is proved
+   statement that every lexeme lies INSIDE the file and that lexemes are ordered is not proved
+   (begin <= end + 1 is); what is proved
    for all inputs is listed below (well-bracketed events, event tables, offsets), the rest is covered by the per-Next() correspondence and the exactness runs. *)
 From JS Require Import Base Bytes Scanner ScanRun C12Proofs EventSafe.
+From JS Require ExtentSafe.
 From JS Require LexemeEvents ScannerProg.
 Open Scope Z_scope.
 
@@ -41,6 +43,19 @@ Theorem C12_lexeme_events_are_well_bracketed :
     e <> EndPanic PEventStackEmpty /\ e <> EndPanic PLexemeType.
 Proof. exact lexeme_events_are_well_bracketed. Qed.
 
+(* for EVERY input: no lexeme the scanner returns ends more than one byte before it begins
+   (Begin <= End + 1; an empty lexeme has End = Begin - 1).  This is the class of finding F2
+   ("/*/" gave End = Begin - 2 and Value() panicked): with the repair in /repo the checker passes,
+   without it the proof does not go through.  Lower bounds of "cursor - Begin position" per
+   state and pending Begin are inferred from the regenerated program, checked by symbolic execution
+   of every path (with what each path knows about the byte under the cursor), and the checker is
+   proved sound against the interpreter. *)
+Theorem C12_lexeme_extents_are_never_inverted :
+  forall data tbl fuel,
+    let '(ls, _, _) := lex_traj data tbl fuel (init_conf ScannerProg.initial_state) in
+    Forall (fun l => lb l <= le l + 1) ls.
+Proof. exact ExtentSafe.lexeme_extents_are_never_inverted. Qed.
+
 (* ... and in every configuration the scanner can reach, the next queued event is processed
    successfully (never the "Ending lexeme event does not match beginning event" error) *)
 Theorem C12_queued_events_always_process :
@@ -59,6 +74,7 @@ Proof. exact f2_regression. Qed.
 
 Print Assumptions C12_lexeme_events_are_well_bracketed.
 Print Assumptions C12_queued_events_always_process.
+Print Assumptions C12_lexeme_extents_are_never_inverted.
 Print Assumptions C12_event_offsets_partial.
 Print Assumptions C12_event_tables.
 Print Assumptions C12_lexeme_from_events.
